@@ -108,15 +108,16 @@ func Run(src []byte) (*Result, error) {
 	r := &Result{}
 	env := goEnv()
 	{
-		ctx, cancel := context.WithTimeout(context.Background(), 5*time.Minute)
+		ctx, cancel := context.WithTimeout(context.Background(), 30*time.Minute)
 		cmd := exec.CommandContext(ctx, goBin(), "build", "-gcflags=-e", "-o", "prog", "main.go")
 		cmd.Dir = work
 		cmd.Env = env
 		out, err := cmd.CombinedOutput()
+		timedOut := ctx.Err() != nil
 		cancel()
 		if err != nil {
 			var ee *exec.ExitError
-			if !errors.As(err, &ee) || ctx.Err() != nil {
+			if !errors.As(err, &ee) || timedOut {
 				return nil, fmt.Errorf("gcref: go build could not run: %v\n%s", err, out)
 			}
 			s := string(out)
